@@ -294,7 +294,8 @@ class FnCtx:
         out = []
         for d in ds:
             if d[0] == "s" and d[3].rv is not None and d[3].rv.kind == "aggregate" and d[3].rv.agg.get("k") == "adt" \
-                    and str(d[3].rv.agg.get("adt", "")).split("::")[-1] in ("Option", "Result"):
+                    and d[3].rv.agg.get("vidx") is not None:
+                # Option / Result, or a field-less enum of the crate that names a choice (`enum Level { Entity, Group, .. }`)
                 out.append((d[3].rv.agg.get("vidx"), str(d[3].rv.agg.get("adt", "")).split("::")[-1]))
             elif d[0] == "t" and d[3].callee is not None and not d[3].callee.indirect and d[3].callee.method() == "from_residual" \
                     and "Result" in (d[3].dest_ty or self.mir.locals[d[3].dest.local] or ""):
@@ -353,6 +354,7 @@ class FnCtx:
         # Option / Result valued carriers: `let r = if a { Some(x) } else { None }; if let Some(v) = r { .. }` — the later switch on
         # the discriminant of r follows the variant that was assigned on the path
         variants = {}
+        payloads = {}
         for bb0, ce0 in self.ces.items():
             e0 = ce0.expr
             if e0[0] == "discr" and e0[1][0] == "local" and not e0[1][2] and e0[1][1] not in tracked:
@@ -362,6 +364,24 @@ class FnCtx:
                 if vs is not None:
                     variants[L] = vs
                     tracked[L] = ds
+            # switch on the payload of such a carrier (`if let Some(level) = verdict { match level { .. } }`)
+            if e0[0] == "discr" and e0[1][0] == "local" and len(e0[1][2]) == 2 and str(e0[1][2][0]).startswith("as ") and e0[1][2][1] == "0":
+                L = e0[1][1]
+                ds = m.whole_defs(L)
+                vs = self._variant_defs(ds)
+                if vs is not None:
+                    variants.setdefault(L, vs)
+                    tracked.setdefault(L, ds)
+                    pv = []
+                    for d in ds:
+                        inner = None
+                        if d[0] == "s" and d[3].rv.ops and d[3].rv.ops[0].place is not None and not d[3].rv.ops[0].place.proj:
+                            ids = m.whole_defs(d[3].rv.ops[0].place.local)
+                            if len(ids) == 1 and ids[0][0] == "s" and ids[0][3].rv is not None and ids[0][3].rv.kind == "aggregate" \
+                                    and ids[0][3].rv.agg.get("k") == "adt":
+                                inner = ids[0][3].rv.agg.get("vidx")
+                        pv.append(inner)
+                    payloads[L] = pv
             # the same through `?`: switch on Try::branch(r) where r is such a carrier (a helper's Result, inlined, whose error
             # path must not be continued on the Continue arm)
             if e0[0] == "discr" and e0[1][0] == "call" and e0[1][1].endswith("Try::branch") and e0[1][2]:
@@ -444,6 +464,10 @@ class FnCtx:
                     feasible = True
                     if e[0] == "discr" and e[1][0] == "local" and not e[1][2] and e[1][1] in variants and e[1][1] in tagd:
                         v = variants[e[1][1]][tagd[e[1][1]]][0]
+                        if v is not None and s != ce.target_for(v):
+                            continue
+                    if e[0] == "discr" and e[1][0] == "local" and len(e[1][2]) == 2 and e[1][1] in payloads and e[1][1] in tagd:
+                        v = payloads[e[1][1]][tagd[e[1][1]]]
                         if v is not None and s != ce.target_for(v):
                             continue
                     if e[0] == "discr" and e[1][0] == "call" and e[1][1].endswith("Try::branch") and e[1][2]:
@@ -544,6 +568,105 @@ def leaf_defs(fc, e, depth=4):
                 out.extend(leaf_defs(fc, de, depth - 1))
             return out
     return [e0]
+
+
+def all_comparisons(fc):
+    """[(block, line, (op, a, b))] for every comparison of the function: branch conditions, comparisons stored in a bool, and
+    calls to PartialEq / PartialOrd methods whose result is used as a value"""
+    out, seen = [], set()
+    m = fc.mir
+    for sb, ce in fc.ces.items():
+        c = cmp_norm(E.strip_casts(ce.expr))
+        if c:
+            out.append((sb, m.blocks[sb].term.line, c))
+            seen.add(repr(c))
+    for bb, i, s in m.stmts():
+        if s.kind == "assign" and s.rv is not None and s.rv.kind == "binop" and s.rv.op in ("Eq", "Ne", "Lt", "Le", "Gt", "Ge"):
+            c = cmp_norm(E.strip_casts(fc.rv_expr(s)))
+            if c and repr(c) not in seen:
+                out.append((bb, s.line, c))
+                seen.add(repr(c))
+    for bb, t in m.calls():
+        if not t.callee.indirect and t.callee.method() in CMP_METHODS:
+            c = cmp_norm(E.strip_casts(fc.eb.call(t, bb, 0)))
+            if c and repr(c) not in seen:
+                out.append((bb, t.line, c))
+                seen.add(repr(c))
+    return out
+
+
+def not_member_pred(field, exclude=None):
+    """guard predicate for "x is NOT among self.<field>": the false edge of any(..) / position(..).is_some() / find(..).is_some(),
+    the true edge of position(..).is_none() / find(..).is_none()"""
+    def pred(ce):
+        e0 = E.strip_casts(ce.expr)
+        if ce.true_target is None:
+            return None
+        coll, positive = None, True
+        if E.is_call(e0, "Iterator::any") and e0[2]:
+            coll = e0[2][0]
+        elif e0[0] == "call" and e0[1].split("::")[-1] in ("is_some", "is_none") and e0[2]:
+            inner = E.strip_casts(e0[2][0])
+            if E.is_call(inner, "Iterator::position", "Iterator::find", "Iterator::rposition") and inner[2]:
+                coll = inner[2][0]
+                positive = e0[1].endswith("is_some")
+        if coll is None or not E.mentions_field(coll, field) or (exclude and E.mentions_field(coll, exclude)):
+            return None
+        return "false" if positive else "true"
+    return pred
+
+
+def carrier_scenarios(fc):
+    """For analyses that are not path sensitive: a stored verdict (a bool assigned constants, an Option / Result whose definitions
+    fix the variant, also when it is tested through `?`) splits the function into scenarios, one per definition. In a scenario the
+    blocks of the other definitions are removed and the switch that tests the verdict keeps only the matching edge. Every
+    feasible path lies in exactly one scenario, so the union of the scenario results is the result for the function.
+    Returns [(removed_blocks, removed_edges)] — [([], [])] when there is no stored verdict (at most one carrier is split)."""
+    m = fc.mir
+    for sb, ce in sorted(fc.ces.items()):
+        e = ce.expr
+        L, kind = None, None
+        if e[0] == "local" and not e[2] and m.locals[e[1]] == "bool" and ce.true_target is not None:
+            L, kind = e[1], "bool"
+        elif e[0] == "discr" and e[1][0] == "local" and not e[1][2]:
+            L, kind = e[1][1], "discr"
+        elif e[0] == "discr" and e[1][0] == "call" and e[1][1].endswith("Try::branch") and e[1][2]:
+            a = E.strip_casts(e[1][2][0])
+            if a[0] == "local" and not a[2]:
+                L, kind = a[1], "try"
+        if L is None:
+            continue
+        ds = m.whole_defs(L)
+        if len(ds) < 2:
+            continue
+        targets = []
+        if kind == "bool":
+            for d in ds:
+                de = fc._def_expr(d)
+                neg = False
+                while de[0] == "un" and de[1] == "Not":
+                    de, neg = de[2], not neg
+                if de[0] != "const":
+                    targets = None
+                    break
+                targets.append(ce.true_target if (bool(de[1]) != neg) else ce.false_target)
+        else:
+            vs = fc._variant_defs(ds)
+            if vs is None:
+                continue
+            for v, ty in vs:
+                if kind == "try":
+                    v = v if ty == "Result" else 1 - v
+                targets.append(ce.target_for(v))
+        if not targets or any(t is None for t in targets):
+            continue
+        out = []
+        for i, d in enumerate(ds):
+            others = [x[1] for j, x in enumerate(ds) if j != i and x[1] != d[1]]
+            edges = [(sb, s2) for s2 in m.succ(sb) if s2 != targets[i]]
+            out.append((others, edges))
+        return out
+    return [([], [])]
 
 
 def compared_param_fields(fc):
@@ -682,6 +805,56 @@ def field_adt(fc, op, field):
             continue
         return None
     return None
+
+
+def field_adt_defs(fc, op, field):
+    """field_adt for a value with several definitions (a sender chosen by a `match` on a level): [(defining block, ADT or None)].
+    A single-definition value yields one entry with block None."""
+    from vplib.flow import is_transparent_call
+    m = fc.mir
+    if op.place is None:
+        return [(None, None)]
+    pl = op.place
+    for _ in range(48):
+        for p in pl.proj:
+            if p[0] == "field" and p[4] == field:
+                return [(None, short_ty(p[2]))]
+        l = pl.local
+        if m.is_arg(l):
+            return [(None, None)]
+        ds = m.whole_defs(l)
+        if len(ds) > 1:
+            out = []
+            for k, bb, i, obj in ds:
+                a = None
+                if k == "s" and obj.rv is not None:
+                    rv = obj.rv
+                    pl2 = rv.place if rv.kind in ("ref", "rawptr") else (rv.ops[0].place if rv.kind in ("use", "cast") and rv.ops and rv.ops[0].place is not None else None)
+                    if pl2 is not None:
+                        class _Op:
+                            place = pl2
+                        a = field_adt(fc, _Op, field)
+                out.append((bb, a))
+            return out
+        if len(ds) != 1:
+            return [(None, None)]
+        k, bb, i, obj = ds[0]
+        if k == "t":
+            if is_transparent_call(obj) and obj.args and obj.args[0].place is not None:
+                pl = obj.args[0].place
+                continue
+            return [(None, None)]
+        rv = obj.rv
+        if rv is None:
+            return [(None, None)]
+        if rv.kind in ("ref", "rawptr"):
+            pl = rv.place
+            continue
+        if rv.kind in ("use", "cast") and rv.ops and rv.ops[0].place is not None:
+            pl = rv.ops[0].place
+            continue
+        return [(None, None)]
+    return [(None, None)]
 
 
 def is_ok_unit(e):
